@@ -48,7 +48,7 @@ RULE = ("trees of 2-5 files, both tools, all parameter sets; victim entry first 
         "with the run on the pristine ecc file; non-trivial = victim not the only entry; distinct = distinct (scenario, victim, class)")
 
 KINDS = ["few", "many", "zeros", "marker", "delim1", "delim2", "delim3", "delim4", "size", "garbage", "garbage_long", "shorten", "tiny", "tailcut",
-         "tailcut", "tailcut", "empty", "size_text", "size_text", "size_text"]
+         "tailcut", "tailcut", "empty", "empty", "size_text", "size_text", "size_text", "size_small", "size_small"]
 
 
 def damage_entry(rng, ent, f, s, kd):
@@ -80,6 +80,18 @@ def damage_entry(rng, ent, f, s, kd):
         ea, eb = f["size_ecc"][0] - s, f["size_ecc"][1] - s
         txt = rng.choice([b"1\xb3\xb20", b"\xb2", b"12\xb9", b"\xb9\xb9", b"4\xb2", b"\xb31", b" 12 ", b"+5", b"-3", b"1_0", b"1__0", b"_1", b"0x10", b"1e3", b"\x0b7\x0c", b"7\x00",
                           b"\xbd", b"00012", b"1.0", b""])
+        garb = bytes(rng.choice([0x41, 0x7f, 0xfb, 0x33, rng.randrange(1, 250)]) for _ in range(eb - ea))
+        ent = bytearray(bytes(ent[:a]) + txt + bytes(ent[b:ea]) + garb + bytes(ent[eb:]))
+    elif kd == "size_small":
+        # a well-formed but much smaller size, its intra-ecc destroyed: the file is then several times longer than its entry says
+        # (run with --ignore_size, see `run`), the stage-2/3 rate must not be extrapolated beyond the recorded end
+        a, b = f["size"][0] - s, f["size"][1] - s
+        ea, eb = f["size_ecc"][0] - s, f["size_ecc"][1] - s
+        try:
+            cur = int(bytes(ent[a:b]))
+        except ValueError:
+            cur = 8
+        txt = b"%d" % rng.choice([1, 2, 7, max(1, cur // 2), max(1, cur // 3), max(1, cur // 4), max(1, cur // 9)])
         garb = bytes(rng.choice([0x41, 0x7f, 0xfb, 0x33, rng.randrange(1, 250)]) for _ in range(eb - ea))
         ent = bytearray(bytes(ent[:a]) + txt + bytes(ent[b:ea]) + garb + bytes(ent[eb:]))
     elif kd == "garbage":
@@ -135,7 +147,7 @@ def run(oc, tier, seed, model_available, escalate):
         fields = [eu.parse_entry(data, s, e) for s, e in bounds]
         order = [f["relpath"].decode("latin-1") for f in fields]
         dmg = dict(tree)
-        for p in sorted(tree)[:2]:
+        for p in sorted(tree)[:2] + order[-1:]:      # the first two by name and the one whose entry comes last in the ecc file
             if tree[p]:
                 c = bytearray(tree[p])
                 c[0] ^= 0x41
@@ -150,6 +162,18 @@ def run(oc, tier, seed, model_available, escalate):
             cand = [j for j in range(len(bounds) - 1) if dmg[order[j]] == tree[order[j]]]
             if cand:
                 vi = rng.choice(cand)
+        if kd in ("empty", "tiny", "marker", "garbage") and rng.random() < 0.7:
+            # directed: a victim followed by the entry of a damaged file (whose repair shows that the run went on past the victim)
+            cand = [j for j in range(len(bounds) - 1) if any(dmg[order[m]] != tree[order[m]] for m in range(j + 1, len(bounds)))]
+            if cand:
+                vi = rng.choice(cand)
+        if kd == "size_small":
+            if P.tool == "whole":
+                big = [j for j in range(len(bounds)) if len(tree[order[j]]) > P.size]
+                if big:
+                    vi = rng.choice(big)
+            P.ignore_size = True
+            rc0, st0, out0, _ = eu.correct(P, droot, ecc, os.path.join(d, "out0"))
         s, e = bounds[vi]
         new_ent = damage_entry(rng, data[s:e], fields[vi], s, kd)
         new = data[:s] + new_ent + data[e:]
